@@ -377,6 +377,7 @@ struct NestElem {
 using RList = lg::rcu_list<NestElem, vstd::recursive_mutex, vrt::QAlloc<NestElem>>;
 NestElem::NestElem(const NestArg& a) : t((uint64_t)a.v) {
     RList* l = static_cast<RList*>(a.list);
+    if (a.nested == 9) { auto it = l->begin(); if (it != l->end()) l->erase(it); return; }      // the constructor erases the current first element instead
     for (int k = 0; k < a.nested; ++k) { if (k & 1) l->emplace_front((uint64_t)(a.v * 10 + k + 1)); else l->emplace_back((uint64_t)(a.v * 10 + k + 1)); }
 }
 vh::Outcome run_c12r(const vh::Case& c) {
@@ -402,7 +403,11 @@ vh::Outcome run_c12r(const vh::Case& c) {
                     for (int k = 0; k < n; ++k) { if (k & 1) ref.push_front(v * 10 + k + 1); else ref.push_back(v * 10 + k + 1); }
                     h->emplace_back(NestArg{raw, v, n}); ref.push_back(v); break;
                 }
-                case 4: {
+                case 4: if (op.b & 1) {      // emplace_front whose element constructor erases the element that is the head at that moment
+                    nested_any = true;
+                    if (!ref.empty()) ref.pop_front();
+                    h->emplace_front(NestArg{raw, v, 9}); ref.push_front(v); break;
+                } else {
                     int n = op.a % 3; if (n) nested_any = true;
                     for (int k = 0; k < n; ++k) { if (k & 1) ref.push_front(v * 10 + k + 1); else ref.push_back(v * 10 + k + 1); }
                     h->emplace_front(NestArg{raw, v, n}); ref.push_front(v); break;
